@@ -36,7 +36,8 @@ def make_grid(spec):
     elif kind == "tensor":
         g = pp.TensorGrid(*[np.array(x, dtype=float) for x in spec["x"]])
     elif kind == "tri":
-        g = pp.StructuredTriangleGrid(np.array(spec["n"]))
+        g = pp.StructuredTriangleGrid(np.array(spec["n"]), np.array(spec["physdims"], dtype=float)) \
+            if spec.get("physdims") else pp.StructuredTriangleGrid(np.array(spec["n"]))
     elif kind == "tet":
         g = pp.StructuredTetrahedralGrid(np.array(spec["n"]))
     else:
@@ -62,6 +63,25 @@ def make_grid(spec):
     if spec.get("pmap"):
         g.set_periodic_map(np.array(spec["pmap"], dtype=int))
     return g
+
+
+def apply_second(g, second):
+    """In-place change of the SAME grid object: anisotropic power-of-two stretch of the nodes
+    (topology unchanged), geometry recomputed."""
+    g.nodes = g.nodes * np.array(second["stretch"], dtype=float)[:, None]
+    g.compute_geometry()
+
+
+def aniso_k(rng, nc, const):
+    """Strongly anisotropic tensor rotated in the xy-plane: R diag(ratio, 1) R^T."""
+    def one():
+        ratio = rng.choice([10.0, 100.0, 100.0, 1000.0])
+        ang = math.radians(rng.choice([rng.uniform(150, 165), rng.uniform(0, 180), rng.uniform(15, 30)]))
+        c, s_ = math.cos(ang), math.sin(ang)
+        return (c * c * ratio + s_ * s_, s_ * s_ * ratio + c * c, c * s_ * (ratio - 1))
+    vals = [one()] * nc if const else [one() for _ in range(nc)]
+    return {"kxx": [v[0] for v in vals], "kyy": [v[1] for v in vals], "kzz": [1.0] * nc,
+            "kxy": [v[2] for v in vals]}
 
 
 def periodic_pairs(rng, spec):
@@ -104,12 +124,17 @@ def grid_spec(rng, tier):
         for _ in range(d):
             n = rng.randint(1, 4 if d < 3 else (3 if big else 2))
             x = [rng.choice([0.0, -1.0, 0.5])]
+            graded = rng.random() < 0.3      # boundary layers: cells of size 2^-25 next to O(1)
             for _ in range(n):
-                x.append(x[-1] + rng.choice(steps))
+                x.append(x[-1] + (rng.choice([2.0 ** -25, 2.0 ** -21, 2.0 ** -18, 1.0, 0.5])
+                                  if graded else rng.choice(steps)))
             xs.append(x)
         return {"kind": "tensor", "x": xs}
     if r < 0.8:
-        return {"kind": "tri", "n": [rng.randint(1, 3), rng.randint(1, 3)]}
+        sp = {"kind": "tri", "n": [rng.randint(1, 3), rng.randint(1, 3)]}
+        if rng.random() < 0.5:
+            sp["physdims"] = rng.choice([[2, 1], [1, 2], [4, 1], [1, 0.5]])
+        return sp
     if r < 0.93:
         return {"kind": "cart", "n": [rng.randint(1, 3), rng.randint(1, 3), rng.randint(1, 3 if big else 2)]}
     return {"kind": "tet", "n": [1, rng.randint(1, 2), 1]}
@@ -145,7 +170,7 @@ class C12(Prop):
     props_file = "Props/C12.v"
     preamble = ("From Coq Require Import List ZArith Bool QArith.\nImport ListNotations.\n"
                 "From PP Require Import Model.C12.\nLocal Open Scope Q_scope.\n")
-    n_cases = (30, 450)
+    n_cases = (36, 450)
     design_ref = "DESIGN.md §5 C12"
     level_text = (
         "Coq theorems over an executable transcription of Tpfa.discretize (half "
@@ -208,7 +233,13 @@ class C12(Prop):
             "embedding axes; 45% of the grids are moved by an exact translation (up to 1024) and/or an "
             "exact power-of-two scaling 2^-20..2^20 of the nodes, small ones also by a float rotation "
             "(1e-7 .. 2 rad about a coordinate axis; K-orthogonal then only for isotropic K); K is "
-            "scaled by 2^-40..2^30; ambient_dimension absent or dim..3; K per cell: isotropic, diagonal "
+            "scaled by 2^-40..2^30; length scales down to 2^-30 and graded tensor grids (cells of size "
+            "2^-25 next to O(1)); simplex grids (also with physdims [2,1] etc.) get 10:1..1000:1 "
+            "anisotropic tensors rotated by arbitrary angles (negative half transmissibilities); 30% of "
+            "the cases are two-step histories on ONE Tpfa object and ONE grid object (discretize, "
+            "stretch nodes in place / replace K, compute_geometry, discretize again; compared with the "
+            "model on the final state and bitwise with a fresh object); ambient_dimension absent or "
+            "dim..3; K per cell: isotropic, diagonal "
             "anisotropic, full SPD tensor (dyadic entries), or one constant tensor; bc: random "
             "Dirichlet/Neumann per boundary face (always at least the default Neumann); "
             "non-trivial = at least 2 cells")
@@ -233,7 +264,8 @@ class C12(Prop):
             if ra < 0.45:
                 aff = {}
                 if rng.random() < 0.7:
-                    aff["scale"] = rng.randint(-20, 20)
+                    aff["scale"] = rng.choice([-30, -27, -24, -21]) if rng.random() < 0.4 \
+                        else rng.randint(-20, 20)
                 if rng.random() < 0.5:
                     aff["shift"] = [rng.choice([0, 0.5, -3, 17, 256, -1024]) for _ in range(3)]
                 ncells = 1
@@ -253,6 +285,8 @@ class C12(Prop):
             if spec.get("axperm") and rng.random() < 0.7:
                 kmode = "diag"     # anisotropy that only shows in the embedding axes
             kexp = rng.choice([0, 0, 0, -40, -13, 7, 30])   # exact power-of-two scale of K
+            if spec["kind"] in ("tri", "tet") and rng.random() < 0.6:
+                kmode = "aniso"
             k = {"kxx": pick()}
             if kmode in ("diag", "full"):
                 # often equal in the first axes and different in the third: isotropic for
@@ -270,16 +304,34 @@ class C12(Prop):
             bfaces = [int(f) for f in g.get_all_boundary_faces()]
             rb = rng.random()
             dirf = [f for f in bfaces if (rb < 0.15) or (rb < 0.9 and rng.random() < 0.5)]
+            if kmode == "aniso":
+                k = aniso_k(rng, nc, const)
             k = {key: [v * 2.0 ** kexp for v in vals_] for key, vals_ in k.items()}
             case = {"grid": spec, "k": k, "kmode": kmode, "const": const, "dir": dirf,
                     "ambient": rng.choice([None, None] + list(range(g.dim, 4))),
+                    "second": None,
                     "lin": [rng.randint(-3, 3) for _ in range(4)], "p0": rng.randint(-5, 5)}
+            if rng.random() < 0.3:
+                # history on ONE Tpfa object and ONE grid object: discretize, stretch the nodes
+                # in place (and possibly replace K), compute_geometry, discretize again
+                st = [rng.choice([0.5, 2.0, 4.0, 1.0]), rng.choice([0.25, 1.0, 2.0]), rng.choice([1.0, 2.0, 0.5])]
+                if st[0] == st[1] == st[2]:
+                    st[0] *= 2
+                k2 = None
+                if rng.random() < 0.4:
+                    k2 = {key: [v * rng.choice([0.5, 2.0, 4.0]) for v in vals_] if key in ("kxx",) else list(vals_)
+                          for key, vals_ in k.items()}
+                case["second"] = {"stretch": st, "k": k2}
             yield case
 
     # ------------------------------------------------------------------ implementation
-    def _setup(self, case):
+    def _setup(self, case, final=True):
+        """Grid, tensor, bc, data of the FINAL state of the case (or of the initial one)."""
         g = make_grid(case["grid"])
-        K = make_tensor(g, case["k"])
+        sec = case.get("second") if final else None
+        if sec:
+            apply_second(g, sec)
+        K = make_tensor(g, (sec and sec.get("k")) or case["k"])
         bc = pp.BoundaryCondition(g, np.array(case["dir"], dtype=int), ["dir"] * len(case["dir"]))
         par = {"second_order_tensor": K, "bc": bc}
         if case.get("ambient"):
@@ -288,12 +340,20 @@ class C12(Prop):
         return g, K, bc, data
 
     def run_impl(self, case):
-        g, K, bc, data = self._setup(case)
-        discr = pp.Tpfa(KW)
         import warnings
+        sec = case.get("second")
+        g, K, bc, data = self._setup(case, final=False)
+        discr = pp.Tpfa(KW)
         with warnings.catch_warnings():
             warnings.simplefilter("ignore")
             discr.discretize(g, data)
+            if sec:
+                # same Tpfa object, same grid object, same data dictionary
+                apply_second(g, sec)
+                if sec.get("k"):
+                    K = make_tensor(g, sec["k"])
+                    data[pp.PARAMETERS][KW]["second_order_tensor"] = K
+                discr.discretize(g, data)
         md = data[pp.DISCRETIZATION_MATRICES][KW]
         fi, ci, sgn = sparse_array_to_row_col_data(g.cell_faces)
         pm = case["grid"].get("pmap") or [[], []]
@@ -307,6 +367,17 @@ class C12(Prop):
                "korth": bool(case["grid"]["kind"] in ("cart", "tensor") and case["kmode"] != "full"
                              and (case["kmode"] == "iso"
                                   or not (case["grid"].get("affine") or {}).get("rot")))}
+        res["fresh_equal"] = True
+        if sec:
+            gf, Kf, bcf, dataf = self._setup(case)
+            fresh = pp.Tpfa(KW)
+            with warnings.catch_warnings():
+                warnings.simplefilter("ignore")
+                fresh.discretize(gf, dataf)
+            mdf = dataf[pp.DISCRETIZATION_MATRICES][KW]
+            for key in md:
+                if key in mdf and (abs(md[key] - mdf[key])).max() != 0 if md[key].nnz + mdf[key].nnz else False:
+                    res["fresh_equal"] = False
         res["vsd"] = int(case.get("ambient") or g.dim)
         res["vs"] = canon(md[discr.vector_source_matrix_key])
         res["bpvs"] = canon(md[discr.bound_pressure_vector_source_matrix_key])
@@ -354,6 +425,9 @@ class C12(Prop):
     def oracle(self, case, res):
         g, K, bc, data = self._setup(case)
         nf, nc = res["nf"], res["nc"]
+        if not res.get("fresh_equal", True):
+            return ("re-discretisation on the same Tpfa and grid objects after an in-place geometry/"
+                    "permeability change differs from a fresh discretisation of the same data")
         flux = to_dense(res["flux"], (nf, nc))
         bflux = to_dense(res["bound_flux"], (nf, nf))
         div = g.cell_faces.T.toarray()
@@ -488,6 +562,8 @@ class C12(Prop):
             return "not-single-valued"
         if "constant pressure" in why:
             return "constant-not-zero"
+        if "re-discretisation" in why:
+            return "stale-rediscretisation"
         if "vector source" in why:
             return "vector-source-hydrostatic"
         if "MPFA" in why:
